@@ -53,16 +53,20 @@ def number_literals(t, counter):
     return (t[0], number_literals(t[1], counter), number_literals(t[2], counter))
 
 
-def render(t, full=True, parent=None, side=None):
+def render(t, full=True, parent=None, side=None, first=True):
+    """`first`: this subtree starts the written expression (or a parenthesised group): a prefix sign there needs no parentheses in
+    the minimal rendering (`-a + b`, `-a - b = 1`)."""
     if t[0] == "v":
         return t[1]
     if t[0] == "l":
         return str(100 + t[1])
     if t[0] == "neg":
-        inner = render(t[1], full, "neg", None)
+        inner = render(t[1], full, "neg", None, False)
         s = "-" + (inner if t[1][0] in "vl" else f"({inner})" if not inner.startswith("(") else inner)
+        if not full and first and parent in ("+", "-", "top", None):
+            return s
         return f"({s})" if parent is not None and (full or parent != "top") else s
-    s = f"{render(t[1], full, t[0], 'l')} {t[0]} {render(t[2], full, t[0], 'r')}"
+    s = f"{render(t[1], full, t[0], 'l', first)} {t[0]} {render(t[2], full, t[0], 'r', False)}"
     if parent is None or parent == "top":
         return s
     if full or parent == "neg":
